@@ -87,8 +87,14 @@ func VerifC11_FilterOutputCompleteAtReturn() {
 	verifSchedule(mode, 1)
 	in := c11Input()
 	w := &c11Writer{}
+	// the optional logs on and off: their writers are fast, the output
+	// writer is slow
+	dir := verifTempDir()
+	defer verifRemoveDir(dir)
+	cfg := &jsonconfig.Config{MessageLogDirectory: dir,
+		DisplayMessages: verifParam("display", 0, 1) == 1, RecordMessages: verifParam("record", 0, 1) == 1}
 	verifWitness("reached")
-	HandleMessages(verifTimeOf(1676376000*1000000000), &c11Source{data: in}, w, &jsonconfig.Config{})
+	HandleMessages(verifTimeOf(1676376000*1000000000), &c11Source{data: in}, w, cfg)
 	atReturnBytes, atReturnWrites := w.size()
 	verifWitness("returned")
 	verifQuiesce()
